@@ -13,7 +13,16 @@ import (
 // and stuck verdicts belong to whichever property's workload met them
 // (DESIGN §2.3).
 func owns(prop, oracle string) bool {
-	return strings.HasPrefix(oracle, prop+".") || oracle == "crash" || oracle == "stuck"
+	if strings.HasPrefix(oracle, prop+".") || oracle == "crash" || oracle == "stuck" {
+		return true
+	}
+	switch prop {
+	case "C17", "C18":
+		// "the view converges to the config decoded from the final content" is
+		// the fresh-stack / no-lost-update oracle with the file as one source
+		return oracle == "C05.fresh-stack" || oracle == "C05.lost-update" || oracle == "C05.stale-slot"
+	}
+	return false
 }
 
 // verifyActiveFromStart: verification is active for the initial stack.
@@ -124,6 +133,9 @@ func (r *Run) endOracles() {
 	if r.sc.Prop == "C02" {
 		r.oracleC02()
 	}
+	if r.file != nil {
+		r.oracleC17()
+	}
 }
 
 // verifyActiveAt reports whether re-stacks processed at step are verified.
@@ -180,10 +192,15 @@ func (r *Run) oracleC05() {
 		switch {
 		case f.err != nil:
 			r.fail("C05.fresh-stack", "version serial=%d (stamps %v, step %d) was installed although a fresh stack of the same source values fails: %v", in.Serial, in.Stamps, in.Step, f.err)
+		case f.fp != in.FP && r.tornReadExplains(in):
+			r.probe("torn-read-decoded-and-installed")
 		case f.fp != in.FP:
 			r.fail("C05.fresh-stack", "version serial=%d (stamps %v, step %d) differs from a fresh stack of the same defaults and source values\n incremental: %s\n fresh:       %s", in.Serial, in.Stamps, in.Step, in.FP, f.fp)
 		}
 		for s := 0; s < len(r.sc.Sources) && s < 4; s++ {
+			if r.file != nil && s == r.file.idx && r.tornReadExplains(in) {
+				continue
+			}
 			if in.Stamps[s] != 0 && r.parts[in.Stamps[s]] == nil {
 				r.fail("C05.fresh-stack", "version serial=%d carries stamp %d for source %d that no source ever produced", in.Serial, in.Stamps[s], s)
 			} else if in.Stamps[s] != 0 && r.owner[in.Stamps[s]] != s {
@@ -204,6 +221,9 @@ func (r *Run) oracleC05() {
 			a, b := pos[prev.Stamps[s]], pos[in.Stamps[s]]
 			if prev.Stamps[s] == in.Stamps[s] {
 				continue
+			}
+			if r.file != nil && s == r.file.idx {
+				continue // a file's content is whatever was read, torn reads included (tornReadExplains)
 			}
 			if in.Stamps[s] == 0 || (r.sc.Sources[s].Init != nil && in.Stamps[s] == r.sc.Sources[s].Init.ID) {
 				r.fail("C05.stale-slot", "source %d went back from report %d to its initial value in version serial=%d", s, prev.Stamps[s], in.Serial)
@@ -290,14 +310,23 @@ func (r *Run) slotCandidates(s int) []uint64 {
 
 func (r *Run) noLostUpdate() {
 	active, known := r.verifying(r.sim.Step())
-	if !known {
+	if !known || r.convergenceExcused() != "" {
 		return
 	}
 	final := r.installs[len(r.installs)-1]
 	cands := make([][]uint64, 4)
 	combos := 1
 	for s := 0; s < 4; s++ {
-		if s < len(r.srcs) {
+		if r.file != nil && s == r.file.idx {
+			var state string
+			cands[s], state = r.fileCandidates()
+			if state != "known" {
+				// final content unreadable or malformed: the slot keeps whatever
+				// was decoded last (possibly a torn read); oracleC17 checks that
+				// case (last good config kept, error reported)
+				return
+			}
+		} else if s < len(r.srcs) {
 			cands[s] = r.slotCandidates(s)
 		} else {
 			cands[s] = []uint64{0}
@@ -325,6 +354,9 @@ func (r *Run) noLostUpdate() {
 			if combos == 1 {
 				r.probe("final-stack-checked")
 			}
+			return
+		}
+		if final.Stamps == st && r.tornReadExplains(final) {
 			return
 		}
 		tried = append(tried, fmt.Sprint(st))
